@@ -39,7 +39,13 @@ fn main() {
             }
         }
         let g2 = g.to_string();
-        let r = std::panic::catch_unwind(move || vharness::run_named(&g2, &args));
+        let r = std::panic::catch_unwind(move || {
+            if g2.starts_with("probe:") {
+                vharness::run_probe(&g2, &args)
+            } else {
+                vharness::run_named(&g2, &args)
+            }
+        });
         for k in set {
             std::env::remove_var(k);
         }
